@@ -21,6 +21,8 @@ import (
 	"fmt"
 	"os"
 	"os/exec"
+	"path/filepath"
+	"regexp"
 	"runtime"
 	"sort"
 	"strings"
@@ -109,7 +111,7 @@ func tail(s string, n int) string {
 // crashSummary extracts the runtime's own first line ("fatal error: concurrent map …", "panic: …").
 func crashSummary(stderr string) string {
 	for _, l := range strings.Split(stderr, "\n") {
-		if strings.HasPrefix(l, "fatal error:") || strings.HasPrefix(l, "panic:") || strings.Contains(l, "SIGBUS") || strings.Contains(l, "SIGSEGV") || strings.Contains(l, "deadlock") {
+		if strings.Contains(l, "DATA RACE") || strings.HasPrefix(l, "fatal error:") || strings.HasPrefix(l, "panic:") || strings.Contains(l, "SIGBUS") || strings.Contains(l, "SIGSEGV") || strings.Contains(l, "deadlock") {
 			return strings.TrimSpace(l)
 		}
 	}
@@ -119,8 +121,12 @@ func crashSummary(stderr string) string {
 // runOneChild feeds `todo` to one child. Returns crashedAt = len(cases) when every case finished,
 // the index of the case that was running when the child died, or -1.
 func runOneChild(cases []Case, todo []int, results []Result, done []bool, perCase time.Duration) (finished int, crashedAt int, stderr string) {
-	cmd := exec.Command(os.Args[0])
-	cmd.Env = append(os.Environ(), "C08_CHILD=1", "GOMAXPROCS="+childProcs(cases[todo[0]].Kind))
+	bin := os.Args[0]
+	if childBinary != "" {
+		bin = childBinary
+	}
+	cmd := exec.Command(bin)
+	cmd.Env = append(os.Environ(), "C08_CHILD=1", "GOMAXPROCS="+childProcs(cases[todo[0]].Kind), "GORACE=halt_on_error=1")
 	var in bytes.Buffer
 	for _, i := range todo {
 		b, _ := json.Marshal(IndexedCase{Idx: i, Case: cases[i]})
@@ -213,6 +219,40 @@ func childProcs(kind string) string {
 		return "1"
 	}
 	return "4"
+}
+
+// childBinary, when set, is run instead of this binary for the children (the -race build in thorough).
+var childBinary string
+
+// buildRaceBinary builds this command with the race detector against the same tree (thorough tier only).
+func buildRaceBinary() (string, error) {
+	dir, err := os.MkdirTemp("", "c08race-")
+	if err != nil {
+		return "", err
+	}
+	out := filepath.Join(dir, "corr_c08_race")
+	args := []string{"build", "-race"}
+	if repo := os.Getenv("VERIF_REPO"); repo != "" && repo != "/repo" {
+		tag := regexp.MustCompile(`\W+`).ReplaceAllString(repo, "_")
+		args = append(args, "-modfile", "go.scratch."+tag+".mod")
+	}
+	args = append(args, "-tags", "verif", "-o", out, "./cmd/corr_c08")
+	try := func(name string, extraEnv ...string) error {
+		cmd := exec.Command(name, args...)
+		cmd.Env = append(os.Environ(), append([]string{"GOFLAGS=-mod=mod", "GOPROXY=off"}, extraEnv...)...)
+		b, err := cmd.CombinedOutput()
+		if err != nil {
+			return fmt.Errorf("%s %v: %v: %s", name, args, err, tail(string(b), 300))
+		}
+		return nil
+	}
+	if err := try("go", "GOTOOLCHAIN=auto"); err != nil {
+		if err2 := try("go1.26.8", "GOTOOLCHAIN=local"); err2 != nil {
+			os.RemoveAll(dir)
+			return "", err
+		}
+	}
+	return out, nil
 }
 
 // failCapped records at most three failures per key (the report keeps 50 in all; every distinct key must fit).
@@ -353,6 +393,9 @@ func concCrashKey(kinds, msg string) string {
 	if strings.Contains(msg, "concurrent map") {
 		return "conc:fatal-concurrent-map"
 	}
+	if strings.Contains(msg, "DATA RACE") {
+		return "conc:data-race"
+	}
 	return "conc:crash:" + kinds
 }
 
@@ -444,7 +487,13 @@ func evalRace(cases []Case, o *common.Options, rep *common.Report) error {
 				break
 			}
 			if model != nil {
-				line := strings.Join(oc.Ress, ",") + ";" + oc.Obs.dump(universe(c.PSKLen))
+				var apiRess []string // the model lists results of the API operations only (an edit has none)
+				for j, rr := range oc.Ress {
+					if !strings.HasPrefix(c.Race[j], "edit ") {
+						apiRess = append(apiRess, rr)
+					}
+				}
+				line := strings.Join(apiRess, ",") + ";" + oc.Obs.dump(universe(c.PSKLen))
 				if !allowed[line] {
 					rep.Diverge(common.Divergence{Engine: "conc", Case: c, Impl: line, Model: keysOf(allowed), Note: "outcome at quiescence is not an outcome of any interleaving of the model"})
 					break
@@ -461,7 +510,7 @@ func evalRace(cases []Case, o *common.Options, rep *common.Report) error {
 // anyOK: some raced add/update/delete was acknowledged (so a save is due).
 func anyOK(ress, race []string) bool {
 	for i, r := range ress {
-		if r == "ok" && !strings.HasPrefix(race[i], "reload") {
+		if r == "ok" && !strings.HasPrefix(race[i], "reload") && !strings.HasPrefix(race[i], "edit") {
 			return true
 		}
 	}
@@ -513,6 +562,20 @@ func starves(pskLen, trials int) []Case {
 	}
 }
 
+// stales: an acknowledged change with its save due, against a loop of reloads of the (unchanged) store file (see runStale).
+func stales(pskLen, trials int) []Case {
+	k := universe(pskLen)
+	var big []DocEntry
+	big = append(big, DocEntry{"a", k[0]}, DocEntry{"b", k[1]})
+	for i := 0; i < 2000; i++ {
+		big = append(big, DocEntry{fmt.Sprintf("u%04d", i), Key{100 + i, pskLen}})
+	}
+	return []Case{
+		{Kind: "hammer", PSKLen: pskLen, TCP: true, UDP: true, Init: mkDoc(big), Ops: []string{"stale-reload"}, Race: []string{"add c " + k[2].String()}, Reps: trials},
+		{Kind: "hammer", PSKLen: pskLen, TCP: true, UDP: true, Init: mkDoc(big), Ops: []string{"stale-reload"}, Race: []string{"delete b"}, Reps: trials},
+	}
+}
+
 // reloadLoops: LoadFromFile in a loop against add/delete in a loop, for `ms` milliseconds, in `n` processes.
 func reloadLoops(pskLen, n, ms int) []Case {
 	k := universe(pskLen)
@@ -531,7 +594,7 @@ func evalHammers(cases []Case, rep *common.Report, probe bool) {
 	for i, c := range cases {
 		r := results[i]
 		kinds := keyKinds(c.Race)
-		if len(c.Ops) > 0 && (c.Ops[0] == "reload-loop" || c.Ops[0] == "starve") {
+		if len(c.Ops) > 0 && (c.Ops[0] == "reload-loop" || c.Ops[0] == "starve" || c.Ops[0] == "stale-reload") {
 			kinds += "|reload"
 		}
 		rep.Case("hammer "+c.sig(), true)
@@ -552,6 +615,11 @@ func evalHammers(cases []Case, rep *common.Report, probe bool) {
 			// the two F7 witnesses (schedule-dependent: several templates / processes try)
 			if kinds == "add|delete|reload" {
 				rep.FindingsProbed["conc:unlisted-key-accepted"] = rep.FindingsProbed["conc:unlisted-key-accepted"] || key == "conc:unlisted-key-accepted"
+			}
+			if len(c.Ops) > 0 && c.Ops[0] == "stale-reload" {
+				for _, pk := range []string{"conc:stale-reload:acknowledged-op-not-listed", "conc:stale-reload:file-mismatch-after-save"} {
+					rep.FindingsProbed[pk] = rep.FindingsProbed[pk] || key == pk
+				}
 			}
 			if strings.HasSuffix(kinds, "|reload") {
 				rep.FindingsProbed["conc:fatal-concurrent-map"] = rep.FindingsProbed["conc:fatal-concurrent-map"] || key == "conc:fatal-concurrent-map"
@@ -619,6 +687,7 @@ func parentMain() {
 			hs := hammers(l, reps)
 			hs = append(hs, starves(l, budget(o, 150, 600, 1000))...)
 			hs = append(hs, reloadLoops(l, budget(o, 2, 4, 4), budget(o, 6000, 15000, 20000))...)
+			hs = append(hs, stales(l, budget(o, 1, 3, 6))...)
 			evalHammers(hs, rep, true)
 		}
 		if err == nil && (only == "" || only == "race") {
@@ -628,6 +697,27 @@ func parentMain() {
 				rc = append(rc, genRace(r.Fork(uint64(1_000_000+i))))
 			}
 			err = evalRace(rc, o, rep)
+		}
+		if err == nil && o.Thorough() && (only == "" || only == "racedet") {
+			// the same concurrent engines once more under the Go race detector (children built with -race)
+			if bin, berr := buildRaceBinary(); berr != nil {
+				rep.Note("race-detector pass skipped: %v", berr)
+			} else {
+				childBinary = bin
+				l := common.Pick(r, []int{16, 32})
+				hs := hammers(l, 1000)
+				hs = append(hs, starves(l, 100)...)
+				hs = append(hs, reloadLoops(l, 2, 5000)...)
+				evalHammers(hs, rep, false)
+				var rc []Case
+				for i := 0; i < 120; i++ {
+					rc = append(rc, genRace(r.Fork(uint64(2_000_000+i))))
+				}
+				err = evalRace(rc, o, rep)
+				childBinary = ""
+				os.RemoveAll(filepath.Dir(bin))
+				rep.Note("race-detector pass: %d hammer templates + 120 races in children built with -race", len(hs))
+			}
 		}
 		n := budget(o, 1200, 4000, 12000)
 		if only != "" && only != "seq" {
